@@ -132,3 +132,9 @@ Definition radius_ok (c : list bdecl * list bdecl) : bool :=
   let '(i, o) := c in
   leqb bdecl_eqb (fst (rd bdecl_eqb (fun _ => false) (fun _ => true) (radius_process i) [])) o.
 Definition check_radius := mismatches radius_ok.
+
+(* ---- percentage reference ranges: (function, component, observed n, observed d) ---- *)
+Definition pctref_ok (c : Z * Z * Z * Z) : bool :=
+  let '(fn, comp, n, d) := c in
+  match model_pct_ref fn comp with Some (mn, md) => (mn * d =? n * md) | None => false end.
+Definition check_pctref := mismatches pctref_ok.
